@@ -1,7 +1,9 @@
 """prints the prompt for a seeding sub-agent: python tools_seed_prompt.py C04"""
 import json, sys
 pid = sys.argv[1]
-wt = f"/tmp/seed/{pid}"
+base = sys.argv[2] if len(sys.argv) > 2 else "/tmp/seed"
+avoid = sys.argv[3] if len(sys.argv) > 3 else ""
+wt = f"{base}/{pid}"
 prop = None
 for l in open('/verif/properties.jsonl'):
     p = json.loads(l)
@@ -16,7 +18,7 @@ Here is a semantic property of sedpack that is supposed to hold (JSON record: st
 
 {text}
 
-TASK: produce TWO different, independent source changes to sedpack (each one as its own patch against the clean worktree) such that each change
+{avoid}TASK: produce TWO different, independent source changes to sedpack (each one as its own patch against the clean worktree) such that each change
   (a) BREAKS the property above (the statement, for some input/sequence/schedule in its quantifier),
   (b) still compiles/imports, and the complete existing test suite still passes with it,
   (c) looks like a plausible developer mistake or "optimisation"/"refactoring" (off-by-one, dropped step, reordered steps, wrong variable, overly clever shortcut, lost edge case), not sabotage,
